@@ -10,7 +10,8 @@
    carrying 141=Y through SendToTarget during the handshake, and is refuted without that hypothesis (ResetEchoProofs.v).
    Clause 705 (no reset without a cause) has no clause in c07_scan; it is stated as a predicate of its own
    (Session/SpecCause.v: c07_cause_check; buffered frames are covered, through drainMessageIn) and holds on every trace
-   (ResetCauseProofs.v).
+   (ResetCauseProofs.v).  A received Logon carrying 141=Y counts as a cause only when the validator and the application
+   (FromAdmin) accept it: a reset Logon that is refused resets nothing (handleLogon verifies before it decides).
    Clause 707 (reply to an accepted reset Logon: flag echoed as number 1; next sender number 2, or 3 when the peer's reset
    Logon is itself numbered above 1 and a ResendRequest is queued as number 2) holds on every trace (LogonProofs.v). *)
 From Coq Require Import ZArith List Bool.
@@ -228,16 +229,20 @@ Proof. exact c07_709_app_reset_logon_refuted. Qed.
 
 (* ---- clause 705: no reset without a cause ---- *)
 (* STEP: with no reset option configured, from every state whose stash holds only sequence-gated messages and gap fills
-   (invariant TS) and whose inbound buffer holds no Logon carrying 141=Y (whatever else is buffered: the buffered frames are
-   handled by EDeliver, and by handleDisconnectState before it disconnects), an event that is not a cause (a directly
-   processed Logon carrying 141=Y, the ResetSeqTime crossing, an application-sent Logon carrying 141=Y) resets nothing. *)
+   (invariant TS) and whose inbound buffer holds no accepted Logon carrying 141=Y (whatever else is buffered: the buffered
+   frames are handled by EDeliver, and by handleDisconnectState before it disconnects), an event that is not a cause resets
+   nothing.  The causes (reset_cause): a directly processed Logon carrying 141=Y that the validator AND the application
+   (FromAdmin) accept (is_reset_logon: mi_valid = mi_app = VAccept), the ResetSeqTime crossing, an application-sent Logon
+   carrying 141=Y.  A Logon carrying 141=Y that the validator rejects or that FromAdmin refuses (RejectLogon or a reject) is
+   NOT a cause, directly processed or buffered: handleLogon runs verifyMsgAgainstAppImpl before the reset decision. *)
 Theorem c07_no_reset_without_cause_step : forall s e,
   TS s -> buf_clean (s_in_buf s) -> no_reset_option (s_cfg s) = true -> reset_cause e = false ->
   ~ In CbStoreReset (s_cbs (step s e)).
 Proof. exact step_no_reset_without_cause. Qed.
 
 (* TRACE LEVEL: the predicate c07_cause_check (Session/SpecCause.v, code 705; it judges every event except those that
-   handle buffered frames while a Logon carrying 141=Y may sit in the buffer) reports nothing on any trace of the model;
+   handle buffered frames while an accepted Logon carrying 141=Y may sit in the buffer) reports nothing on any trace of the
+   model -- in particular a refused reset Logon never resets the store when no reset option is configured;
    and c07_check itself never reports 705 (its scan has no such clause). *)
 Theorem c07_no_reset_without_cause_on_every_trace : forall c es,
   c07_cause_check c (combine es (map obs_of (run_trace es (init_sess c)))) = [].
@@ -254,6 +259,18 @@ Example c07_no_reset_without_cause_example :
      (3, 3, false, false); (3, 1, true, true); (2, 1, true, true); (2, 1, true, true)]
   /\ c07_cause_check (rcx_cfg Acceptor) (rcx_run (rcx_cfg Acceptor) rcx_trace) = [].
 Proof. exact rcx_trace_resets. Qed.
+
+(* a Logon carrying 141=Y that FromAdmin refuses (RejectLogon) or the validator rejects is judged (it is not a cause, and
+   does not set `pend` when it is buffered) and resets nothing: processed directly, delivered from the buffer, or handled by
+   handleDisconnectState *)
+Example c07_refused_reset_logon_resets_nothing_example :
+  map (fun o => (ob_inbuf (snd o), has_reset (ob_cbs (snd o)), reset_cause (fst o), arrives_reset (fst o)))
+      (rcx_run (rcx_cfg Acceptor) rcx_refused_trace)
+  = [(0, false, false, false); (0, false, false, false); (0, false, false, false); (0, false, false, false);
+     (0, false, false, false); (1, false, false, false); (0, false, false, false); (0, false, false, false);
+     (1, false, false, false); (0, false, false, false)]
+  /\ c07_cause_check (rcx_cfg Acceptor) (rcx_run (rcx_cfg Acceptor) rcx_refused_trace) = [].
+Proof. exact rcx_refused_trace_keeps. Qed.
 
 (* buffered frames that are not a reset Logon do not excuse a reset: one Heartbeat delivered, one handled by
    handleDisconnectState when the connection is lost; the predicate judges both events; nothing is reset *)
